@@ -127,9 +127,10 @@ func RunC12(r *sim.Run) {
 	nSteps := t.Range(15, 55)
 	moves, mutations, twins := 0, 0, 0
 	for step := 0; step < nSteps; step++ {
-		weights := []int{12, 4, 2, 2, 1, 0, 2}
+		weights := []int{12, 4, 2, 2, 1, 0, 2, 0}
 		if extended {
 			weights[5] = 2
+			weights[7] = 1
 		}
 		switch t.Pick(weights) {
 		case 0: // request
@@ -282,6 +283,60 @@ func RunC12(r *sim.Run) {
 			}
 			r.Logf("twins %s: %s -> %d, %s -> %d (impersonation: %s=%s %s=%s)", who, up[i], pair[0].q.Status, up[j], pair[1].q.Status,
 				up[i], impHist[up[i]][len(impHist[up[i]])-1].val, up[j], impHist[up[j]][len(impHist[up[j]])-1].val)
+		case 7: // the floating alias moves while a request to it waits to retry a failed review
+			var cands []string
+			for _, n := range names {
+				if n != floatOwner && live[n] && reachable[n] {
+					cands = append(cands, n)
+				}
+			}
+			if len(cands) == 0 || !live[floatOwner] || !reachable[floatOwner] {
+				break
+			}
+			old := floatOwner
+			twins++
+			who := fmt.Sprintf("mover%d", twins)
+			c := &c12Req{host: floating, token: "ts", imp: true, impUser: who, owner: old, ownerUp: true, at: w.Now()}
+			c.q = &Req{ID: fmt.Sprintf("c%d", len(reqs)), Host: floating, Method: "GET", Target: "/api/v1/namespaces/default/pods",
+				Headers: [][2]string{{"Authorization", "Bearer ts"}, {"Impersonate-User", who}}}
+			// its first SubjectAccessReview is held at the owner, the alias moves, then that
+			// review fails (a transient error): the retry belongs to the same request
+			w.Clusters[old].ReviewMode = "hold-sar"
+			w.Send(c.q)
+			reqs = append(reqs, c)
+			w.Clusters[old].ReviewMode = ""
+			var heldPt *sim.Point
+			for _, p := range w.Sc.Points() {
+				if p.Kind == "review" {
+					heldPt = p
+				}
+			}
+			retrying := heldPt != nil
+			floatOwner = ""
+			moved := false
+			if err := w.Apply(build(old)); err == nil {
+				nw := cands[t.Draw(len(cands))]
+				floatOwner = nw
+				if err := w.Apply(build(nw)); err == nil {
+					moved = true
+					moves++
+				} else {
+					floatOwner = ""
+				}
+			} else {
+				floatOwner = old
+			}
+			if heldPt != nil {
+				r.Fault("review_transient_failure")
+				w.Release(heldPt, Up500)
+			}
+			for g := 0; g < 8 && !c.q.Done; g++ {
+				w.Advance(time.Second)
+			}
+			if retrying && moved {
+				r.Probe("alias_moved_while_a_review_waited_to_retry")
+			}
+			r.Logf("mover %s: sent to %s (owner %s), retrying=%v, alias moved=%v -> now %q; status %d", who, floating, old, retrying, moved, floatOwner, c.q.Status)
 		}
 		w.Boundary()
 	}
